@@ -1,5 +1,6 @@
 """C02 - conventional files parse to exactly the sections, keys and values written."""
 from vlib import gen_doc
+from vlib.scn import h
 from checks import docs
 from gen import extract_facts
 generate_facts = extract_facts.generate
@@ -24,7 +25,15 @@ def make(rng, sid, nitems, hist, single_line=False):
     fnl = rng.random() < 0.85
     content = gen_doc.render(items, fnl)
     meta = {"items": items, "delim": delim, "comment": comment, "cls": g.cls, "content": content, "fnl": fnl}
-    return docs.doc_scenario(sid, content, delim, comment, meta, PATH)
+    s = docs.doc_scenario(sid, content, delim, comment, meta, PATH)
+    if rng.random() < 0.25:
+        # an earlier, successful read in the same process with another delimiter and comment set (a login.defs style file, a
+        # file with colons): what the earlier call was told must not play a part in this one
+        pf, pd, pc = rng.choice([(b"UMASK 022\nMAIL_DIR\t/var/mail\n", b" \t", b"#"), (b"a:b\nc : d ; e\n", b":", b";"),
+                                 (b"x = 1\n[s]\ny=2 # t\n", b" =", b"#"), (b"k;v\n", b";", b"!")])
+        s.lines[1:1] = ["F %s %s" % (h(b"/etc/prior.conf"), h(pf)), "RF 20 %s %s %s" % (h(b"/etc/prior.conf"), h(pd), h(pc)), "FREE 20"]
+        s.meta["prior"] = True
+    return s
 
 
 GEN_HIST = {}
